@@ -176,6 +176,46 @@ def run(ctx):
                       "the %s constructor does not take %s from the source: the new container %s" % (
                           "move" if f.flags.get("move_ctor") else "copy", fld, "reports size 0 although it owns the elements" if fld == "size_" else "is inconsistent"), f)
 
+    # ---- R07.6: emplace builds the element the way std containers do - direct-initialisation from the forwarded arguments.
+    # List-initialisation prefers an initializer_list constructor: emplace_back(3, 'x') on strings would store "\x03x", not "xxx".
+    ctx.rule("R07.6", "emplace/emplace_back construct the element by direct-initialisation T(args...); a range insert walks its source exactly once")
+    nem = 0
+    for f in methods:
+        if f.name not in ("emplace", "emplace_back") or not f.is_pattern:
+            continue
+        for _, _, e in f.roots():
+            for n in walk(e["expr"]):
+                if n.get("k") == "construct" and any(isinstance(a, dict) and (a.get("k") == "pack" or "..." in fmt(a)) for a in n.get("args", [])):
+                    nem += 1
+                    ctx.check(not n.get("list"), "R07.6", f, "element-direct-initialised:" + C06._sig(f),
+                              "%s builds the new element with list-initialisation %s: for element types with an initializer_list constructor the forwarded arguments become the list's contents "
+                              "(the element differs from what emplace on a std container yields)" % (f.name, fmt(n)), (f, n.get("ln")), why_ok=fmt(n))
+    ctx.need("R07.6", "element constructions from the forwarded pack", nem, 2)
+    # a range insert/append traverses [first, last) once: the iterator type is unconstrained, an input-iterator range is
+    # consumed by the first walk (std::distance, a counting loop) and a second walk (std::copy) reads nothing new
+    for f in methods:
+        if f.name not in ("insert", "push_back", "assign") or not f.is_pattern or len(f.params) < 2:
+            continue
+        itp = [p0["name"] for p0 in f.params if re.fullmatch(r"\w+", (p0.get("type") or "")) and (p0.get("type") or "") not in ("iterator", "const_iterator", "size_type", "value_type")]
+        pairs = [(a, b) for a in itp for b in itp if a != b]
+        if len(itp) < 2:
+            continue
+        first, last = itp[-2], itp[-1]
+        walks = []
+        for bid, i, e in f.roots():
+            for n in walk(e["expr"]):
+                if n.get("k") == "call" and (n.get("name") or "") in ("std::distance", "std::copy", "std::move", "std::copy_n", "std::for_each", "std::count", "std::accumulate", "std::uninitialized_copy") \
+                        and [fmt(ir.unwrap(a)) for a in n.get("args", [])[:2]] == [first, last]:
+                    walks.append((n.get("ln"), fmt(n)[:50]))
+                if n.get("k") == "construct" and [fmt(ir.unwrap(a)) for a in n.get("args", [])[:2]] == [first, last]:
+                    walks.append((n.get("ln"), fmt(n)[:50]))
+        for h, body in cfg.loop_blocks(f):
+            if any(re.search(r"\+\+\(?%s\b|\b%s\)?\+\+" % (re.escape(first), re.escape(first)), fmt(e["expr"])) for b in body for e in f.elems(b) if e.get("expr") is not None):
+                walks.append((f.term(h).get("ln"), "loop advancing %s" % first))
+        if walks:
+            ctx.check(len(walks) == 1, "R07.6", f, "source-range-walked-once:" + C06._sig(f),
+                      "%s walks its source range [%s, %s) %d times (%s): with a single-pass range (istream iterators) the first walk consumes the input, the container then holds stale slots "
+                      "instead of the elements" % (f.name, first, last, len(walks), "; ".join("line %s: %s" % w for w in walks)), f, why_ok=str(walks[0]))
     # ---- R07.5 erase shape
     er = [f for f in methods if f.name == "erase"]
     ctx.need("R07.5", "erase", len(er), 1)
